@@ -395,6 +395,32 @@ Theorem C13_seek :
 Proof. exact seek_refines. Qed.
 Print Assumptions C13_seek.
 
+(* the readers C13_seek speaks of are the ones the client hands out: in every capability
+   profile (also ranges without Content-Length on the GET, where the descriptor comes from a
+   HEAD) blob FetchReference and Fetch open the reader with the blob's true size *)
+Theorem C13_seek_size_fetch_reference :
+  forall (H : str -> str) (parse_mt : str -> option str) (subject_of : str -> option (option desc))
+         (main other : str) (p : profile),
+    parse_mt ct_octet = Some ct_octet ->
+    forall g n rs rf c,
+      resolve_ref main rs = Some rf -> valid_digest rf = true -> lookup rf (g_blobs g) = Some c ->
+      exists n' t res,
+        blob_fetchref parse_mt main (reg * N) (cexch H subject_of main other p None) (g, n) rs
+        = ((g, n'), t, res) /\
+        seeker_of res 0 = Some (rsc_open c (len c)).
+Proof. exact fetchref_seeker. Qed.
+Print Assumptions C13_seek_size_fetch_reference.
+
+Theorem C13_seek_size_fetch :
+  forall (H : str -> str) (subject_of : str -> option (option desc)) (main other : str) (p : profile)
+         g n d c,
+    lookup (d_dg d) (g_blobs g) = Some c -> len c = d_sz d -> valid_digest (d_dg d) = true ->
+    exists t res,
+      blob_fetch (reg * N) (cexch H subject_of main other p None) main (g, n) d = ((g, n + 1), t, res) /\
+      seeker_of res (d_sz d) = Some (rsc_open c (len c)).
+Proof. exact fetch_seeker. Qed.
+Print Assumptions C13_seek_size_fetch.
+
 (* ... and that reader returns, for EVERY body behaviour (short reads of any chunk size, the
    last bytes with or before io.EOF, per body), a prefix of the bytes at the position, no
    longer than the buffer, advances by exactly what it returned, and reports io.EOF only
